@@ -4,6 +4,9 @@ WEAVE = [dict(file='src/fiber_io.c', fns=FNS, loops='loops.json'),
 def H(name, fn=None):
     return dict(name=name, tu='io.c', harness='h_' + name, mode='H', loop_contracts=True, functions=[fn or name], timeout=300)
 GROUPS = [H(n) for n in ['read', 'readv', 'recv', 'recvfrom', 'recvmsg', 'write', 'writev', 'send', 'sendto', 'sendmsg', 'close', 'accept', 'connect']] + [
+    dict(name='socket', tu='io.c', harness='h_socket', mode='H', loop_contracts=True, functions=['socket', 'setup_socket'], unwind=9, timeout=300),
+    dict(name='socketpair', tu='io.c', harness='h_socketpair', mode='H', loop_contracts=True, functions=['socketpair', 'setup_socket'], unwind=9, timeout=300),
+    dict(name='pipe', tu='io.c', harness='h_pipe', mode='H', loop_contracts=True, functions=['pipe'], unwind=9, timeout=300),
     H('fcntl_setfl_nonblock', 'fcntl'), H('fcntl_other', 'fcntl'), H('ioctl_fionbio', 'ioctl'),
     dict(name='ev_wait_for_event', tu='event.c', harness='h_wait_for_event', mode='H', functions=['fiber_wait_for_event'], timeout=300),
     dict(name='ev_poll_fd_event', tu='event.c', harness='h_poll_fd_event', mode='H', functions=['fiber_poll_events_internal', 'fiber_event_wake_waiters'], unwind=4, bounded=True,
